@@ -261,50 +261,6 @@ func c02Excluded(tc l4Case, f *syntax.File, sh *shape) string {
 	}) {
 		return "C02-minify-closing-paren-space"
 	}
-	// C02-dashhdoc-reindent: extraIndenter gives a body line with fewer leading tabs than the
-	// first line the first line's *original* indentation (firstIndent) instead of the new one
-	// (baseIndent), so the next pass, whose first line now has baseIndent tabs, moves it again.
-	if o.Indent == 0 && !o.Minify && sh.any(func(n syntax.Node) bool {
-		r, ok := n.(*syntax.Redirect)
-		if !ok || r.Op != syntax.DashHdoc || r.Hdoc == nil {
-			return false
-		}
-		first := -1
-		ls, tabs := true, 0
-		for _, p := range r.Hdoc.Parts {
-			l, ok := p.(*syntax.Lit)
-			if !ok {
-				if ls {
-					if first < 0 {
-						first = tabs
-					} else if tabs < first {
-						return true
-					}
-				}
-				ls = false
-				continue
-			}
-			for i := 0; i < len(l.Value); i++ {
-				b := l.Value[i]
-				switch {
-				case ls && b == '\t':
-					tabs++
-				case b == '\n':
-					ls, tabs = true, 0
-				case ls:
-					if first < 0 {
-						first = tabs
-					} else if tabs < first {
-						return true
-					}
-					ls = false
-				}
-			}
-		}
-		return false
-	}) {
-		return "C02-dashhdoc-reindent"
-	}
 	// C02-minify-stale-wantnewline: under Minify stmtList skips newlines() for the first statement
 	// after `)` / `(` / `$(`, so the wantNewline set by nestedStmts survives and is consumed by the
 	// `do`/`then` of a compound first statement (`a)for x` NEWLINE `do`); the second pass has other
